@@ -175,6 +175,45 @@ theorem edit_suffix_stable (p : CParams) (hv : p.valid) (h : Hash) (piecesA piec
     (by simpa using hoa) (by simpa using hob)
   exact ⟨g, tA, tB, h1, h2, h3, h4⟩
 
+/-- **edit_window_partial** — the property's main sentence, *conditional* on re-synchronisation.
+Hypothesis spelled out: both results have a boundary at the same offset `o` of the unchanged rest `X` (`hoa`, `hob`).  Then the
+two chunk lists are `common ++ midA ++ g ++ tailA` and `common ++ midB ++ g ++ tailB`: identical chunks `common` up to less
+than `ceil4 max` before the edit, identical chunks `g` from the common boundary to the tail zone; the differing chunks
+`midA` / `midB` cover only the byte window `[|common|, |U| + |M| + o)` resp. `[|common|, |U| + |M'| + o)` around the edit.
+MISSING (not a theorem, see `resync_not_universal_witness`): that such an `o` exists within a bounded distance of the edit —
+checked statistically on the implementation for high-entropy data (`c11:resync-distance-exceeded(statistical)`). -/
+theorem edit_window_partial (p : CParams) (hv : p.valid) (h : Hash) (piecesA piecesB : List Bytes) (U M M' X : Bytes)
+    (hA : piecesA.flatten = U ++ M ++ X) (hB : piecesB.flatten = U ++ M' ++ X)
+    (preA postA preB postB : List Bytes)
+    (ha : chunkAll p h piecesA = some (preA ++ postA)) (hb : chunkAll p h piecesB = some (preB ++ postB))
+    (o : Nat) (hoa : preA.flatten.length = U.length + M.length + o) (hob : preB.flatten.length = U.length + M'.length + o) :
+    ∃ common midA midB g tailA tailB,
+      preA ++ postA = common ++ midA ++ g ++ tailA ∧ preB ++ postB = common ++ midB ++ g ++ tailB ∧
+      common.flatten.length ≤ U.length ∧
+      (U.length < common.flatten.length + ceil4 p.max ∨
+       (U ++ M ++ X).length < common.flatten.length + 2 * p.max ∨
+       (U ++ M' ++ X).length < common.flatten.length + 2 * p.max) ∧
+      (common ++ midA).flatten.length = U.length + M.length + o ∧
+      (common ++ midB).flatten.length = U.length + M'.length + o ∧
+      tailA.flatten = tailB.flatten ∧ X.length - o < g.flatten.length + 2 * p.max := by
+  obtain ⟨common, ra, rb, hca, hcb, hle, hor⟩ :=
+    edit_prefix_stable p hv h piecesA piecesB U (M ++ X) (M' ++ X) (by rw [hA, List.append_assoc]) (by rw [hB, List.append_assoc]) _ _ ha hb
+  have hmm : p.min ≤ p.max := hv.2.1
+  have neA := C10.chunk_nonempty p hmm h piecesA _ ha
+  have neB := C10.chunk_nonempty p hmm h piecesB _ hb
+  obtain ⟨midA, hmA⟩ := prefix_of_flatten_le common ra preA postA hca.symm
+    (fun x hx => neA x (by rw [hca]; exact List.mem_append.mpr (Or.inl hx))) (by omega)
+  obtain ⟨midB, hmB⟩ := prefix_of_flatten_le common rb preB postB hcb.symm
+    (fun x hx => neB x (by rw [hcb]; exact List.mem_append.mpr (Or.inl hx))) (by omega)
+  obtain ⟨g, tA, tB, hpA, hpB, ht, hcov⟩ :=
+    edit_suffix_stable p hv h piecesA piecesB U M M' X hA hB preA postA preB postB ha hb o hoa hob
+  refine ⟨common, midA, midB, g, tA, tB, ?_, ?_, hle, ?_, ?_, ?_, ht, hcov⟩
+  · rw [hmA, hpA]; simp only [List.append_assoc]
+  · rw [hmB, hpB]; simp only [List.append_assoc]
+  · simpa [List.append_assoc] using hor
+  · rw [← hmA]; exact hoa
+  · rw [← hmB]; exact hob
+
 /-- **shared_segment_sync.** The same byte string `F` embedded in two different streams (`P₁ ++ F ++ Q₁`, `P₂ ++ F ++ Q₂` —
 e.g. one file in two snapshot streams): if both results have a boundary at the same offset `o` of `F`, the chunks
 after it coincide until less than `ceil4 max` bytes of `F` are left (or a stream reaches its tail zone). -/
